@@ -20,40 +20,13 @@
      ValueIntact      the HTML layer hands the URL parser exactly the input (modulo input preprocessing):
                       the attribute value state is never left and is neutral after every symbol.
    AcceptMode = "prefix" is the negative config (allow-list test by HasPrefix: "httpx:" passes).      *)
-EXTENDS HtmlTok, UrlScheme, Json
+EXTENDS HtmlTok, UrlScheme, UrlAccept, Json
 
-CONSTANTS AcceptMode,   \* "coded" | "prefix" (negative config)
-          Pipeline,     \* "html" | "direct"
+CONSTANTS Pipeline,     \* "html" | "direct"
           EmitEdges
 
 VARIABLES a, q, p, u, okVal, lbl
 vars == <<a, q, p, u, okVal>>
-
-Allowed == { W(<<"h","t","t","p">>), W(<<"h","t","t","p","s">>), W(<<"m","a","i","l","t","o">>),
-             W(<<"t","e","l">>), W(<<"f","t","p">>), W(<<"f","t","p","s">>) }
-AllowedPrefixes == UNION { { SubSeq(s, 1, k) : k \in 0..Len(s) } : s \in Allowed }
-DEAD == <<-1>>     \* the folded prefix can no longer equal an allow-listed scheme
-HIT  == <<-2>>     \* "prefix" mode only: some allow-listed scheme is a prefix of the text before ':'
-
-(* acceptor: ph "scan" (no ':' seen, no '/' seen), "pass", "fail"; pre = folded text before the first ':' as
-   far as it matters (a position in the trie of the allow-list, DEAD or HIT); why = the branch of url.go *)
-A0 == [ph |-> "scan", pre |-> <<>>, why |-> "no-colon"]
-NextPre(pre, c) ==
-    LET n == Append(pre, FoldAscii(c))
-        hasAllowedPrefix == \E s \in Allowed : Len(s) <= Len(n) /\ SubSeq(n, 1, Len(s)) = s
-    IN  IF pre = DEAD \/ pre = HIT THEN pre
-        ELSE IF n \in AllowedPrefixes THEN n
-        ELSE IF AcceptMode = "prefix" /\ hasAllowedPrefix THEN HIT
-        ELSE DEAD
-AStep(s, c) ==
-    IF s.ph # "scan" THEN s
-    ELSE IF c = cCOLON
-         THEN IF s.pre \in Allowed \/ s.pre = HIT
-              THEN [ph |-> "pass", pre |-> <<>>, why |-> "allow-listed"]
-              ELSE [ph |-> "fail", pre |-> <<>>, why |-> "not-allow-listed"]
-    ELSE IF c = cSLASH THEN [ph |-> "pass", pre |-> <<>>, why |-> "slash-before-colon"]
-    ELSE [s EXCEPT !.pre = NextPre(s.pre, c)]
-\* EqualFold works on runes: an undecodable byte is U+FFFD for it; it never folds to ASCII (FoldAscii leaves it alone)
 
 wAmp  == <<cAMP>> \o W(<<"a","m","p">>) \o <<cSEMI>>
 wLt   == <<cAMP>> \o W(<<"l","t">>) \o <<cSEMI>>
@@ -67,7 +40,7 @@ Prefix == <<cLT, 97, cSP>> \o W(<<"h","r","e","f">>) \o <<cEQ, cDQ>>      \* <a 
 Q0 == Run(InitTok, Prefix).q
 
 RECURSIVE UrlFeed(_, _, _)
-UrlFeed(uu, evs, i) == IF i > Len(evs) THEN uu ELSE UrlFeed(UrlStep(uu, evs[i].c), evs, i + 1)
+UrlFeed(uu, evs, i) == IF i > Len(evs) THEN uu ELSE UrlFeed(UrlStepK(uu, evs[i].c, Allowed), evs, i + 1)
 
 Init == /\ a = A0 /\ q = Q0 /\ p = FALSE /\ u = UrlInit /\ okVal = TRUE
         /\ lbl = [op |-> "init"]
@@ -76,7 +49,7 @@ Feed(x) ==
     LET a2 == AStep(a, x) IN
     /\ a' = a2
     /\ IF Pipeline = "direct"
-       THEN /\ u' = UrlStep(u, x)
+       THEN /\ u' = UrlStepK(u, x, Allowed)
             /\ UNCHANGED <<q, p, okVal>>
        ELSE LET r == RunPre(q, p, Esc(x))
                 want == IF x = cCR THEN {<<cLF>>}
